@@ -9,4 +9,4 @@ require (
 
 require github.com/agnivade/levenshtein v1.2.1 // indirect
 
-replace github.com/vektah/gqlparser/v2 => /repo
+replace github.com/vektah/gqlparser/v2 => /var/tmp/repo-snap13
